@@ -290,12 +290,33 @@ func rewriteSelect(x *ast.SelectStmt) ast.Stmt {
 		clauses = append(clauses, &ast.CaseClause{Body: []ast.Stmt{&ast.ExprStmt{X: call(ast.NewIdent("panic"), &ast.BasicLit{Kind: token.STRING, Value: `"vsched: bad select index"`})}}})
 	}
 	args := append([]ast.Expr{ast.NewIdent(hasDef)}, cases...)
-	return &ast.SwitchStmt{
+	sw := &ast.SwitchStmt{
 		Init: &ast.AssignStmt{Lhs: []ast.Expr{tokv, idxv}, Tok: token.DEFINE, Rhs: []ast.Expr{call(sel("vsched", "Select"), args...)}},
 		Tag:  idxv,
 		Body: &ast.BlockStmt{List: clauses},
 	}
+	if !selectFallback {
+		return sw
+	}
+	// Outside a scheduler run (instrumented package called from an ordinary grid check)
+	// the original select statement is executed; its clauses share their (already
+	// rewritten) bodies with the switch above.
+	var orig []ast.Stmt
+	for _, cl := range x.Body.List {
+		cc := cl.(*ast.CommClause)
+		orig = append(orig, &ast.CommClause{Comm: cc.Comm, Body: cc.Body})
+	}
+	return &ast.IfStmt{
+		Cond: call(sel("vsched", "Active")),
+		Body: &ast.BlockStmt{List: []ast.Stmt{sw}},
+		Else: &ast.BlockStmt{List: []ast.Stmt{&ast.SelectStmt{Body: &ast.BlockStmt{List: orig}}}},
+	}
 }
+
+// selectFallback (flag -selectfallback) wraps every rewritten select in
+// `if vsched.Active() { ... } else { original select }`. Off by default: a labelled
+// select (`L: select { ... break L ... }`) cannot be wrapped in an if statement.
+var selectFallback bool
 
 func main() {
 	// usage: instr -repo DIR -out DIR [-add SRCDIR] pkg...
@@ -324,6 +345,8 @@ func main() {
 		case "-add":
 			addDirs = append(addDirs, args[i+1])
 			i++
+		case "-selectfallback":
+			selectFallback = true
 		default:
 			pkgs = append(pkgs, args[i])
 		}
